@@ -511,11 +511,24 @@ func (fv *FuncVerifier) evalSpecHelper(fn *types.Func, call *ast.CallExpr, st *S
 			reject("old() outside a postcondition")
 		}
 		// evaluate with the heaps of the old state; wrapper parameters are in fv.bound
+		// (entry values for contracts; for loop clauses oldBound overrides them with entry values)
 		o := fv.oldState
 		tmp := &State{vars: o.vars, heaps: o.heaps, pc: nil}
+		savedB := fv.bound
+		if len(fv.oldBound) > 0 {
+			nb := map[types.Object]Term{}
+			for k, v := range savedB {
+				nb[k] = v
+			}
+			for k, v := range fv.oldBound {
+				nb[k] = v
+			}
+			fv.bound = nb
+		}
 		fv.specMode++
 		r := fv.eval(call.Args[0], tmp)
 		fv.specMode--
+		fv.bound = savedB
 		return []Term{r}
 	case "__in":
 		m := fv.eval(call.Args[0], st)
@@ -1172,6 +1185,12 @@ func (fv *FuncVerifier) evalWrapperT(pkgPath, name string, vals []Term, st *Stat
 		}
 	}
 	fv.bound = nb
+	if !fv.inClauseHere {
+		savedOB := fv.oldBound
+		fv.oldBound = nil
+		defer func() { fv.oldBound = savedOB }()
+	}
+	fv.inClauseHere = false
 	savedOld := fv.oldState
 	if old != nil {
 		fv.oldState = old
@@ -1350,6 +1369,7 @@ func (fv *FuncVerifier) evalClauseHere(c *Clause, st *State, pos token.Pos) Term
 	}
 	sig := fd.fn.Type().(*types.Signature)
 	vals := make([]Term, sig.Params().Len())
+	oldB := map[types.Object]Term{}
 	scope := fr.pkg.Types.Scope().Innermost(pos)
 	for i := 0; i < sig.Params().Len(); i++ {
 		name := sig.Params().At(i).Name()
@@ -1363,7 +1383,16 @@ func (fv *FuncVerifier) evalClauseHere(c *Clause, st *State, pos token.Pos) Term
 		if v, ok := st.vars[obj]; ok {
 			vals[i] = v
 		}
+		if fv.entry != nil {
+			if ev, ok := fv.entry.vars[obj]; ok {
+				oldB[sig.Params().At(i)] = ev
+			}
+		}
 	}
+	savedOB := fv.oldBound
+	fv.oldBound = oldB
+	defer func() { fv.oldBound = savedOB }()
+	fv.inClauseHere = true
 	if fv.clausePick != nil {
 		pk := fv.clausePick
 		fv.clausePick = nil
